@@ -36,6 +36,15 @@ type C20Case struct {
 	Rendezvous bool `json:"rendezvous,omitempty"`
 	// Nested: every map function runs an inner AsyncMapReduce over this many items (fan-out inside fan-out, as the executor does)
 	Nested int `json:"nested,omitempty"`
+	// SameErr: every failing item fails with the same message (several sub-requests rejected for one reason)
+	SameErr bool `json:"same_err,omitempty"`
+}
+
+func c20ErrMsg(c *C20Case, i int) string {
+	if c.SameErr {
+		return "unauthorized"
+	}
+	return fmt.Sprintf("e%d", i)
 }
 
 var c20Points = []string{"amr.worker.sendErr", "amr.worker.sendRes", "amr.reducer.loop", "amr.reducer.afterReduce",
@@ -116,7 +125,10 @@ func checkC20(c *C20Case) *ev.Failure {
 				yieldN(c.MapYield[i])
 			}
 			if c.Err[i] {
-				return 0, fmt.Errorf("e%d", i)
+				if c.SameErr && i%2 == 0 {
+					return 0, gqlerrors.NewError("FORBIDDEN", errors.New(c20ErrMsg(c, i)))
+				}
+				return 0, errors.New(c20ErrMsg(c, i))
 			}
 			return i, nil
 		}, func(acc []int, v int) []int {
@@ -191,7 +203,7 @@ func checkC20(c *C20Case) *ev.Failure {
 	wantErr := []string{}
 	for i := 0; i < n; i++ {
 		if c.Err[i] {
-			wantErr = append(wantErr, fmt.Sprintf("e%d", i))
+			wantErr = append(wantErr, c20ErrMsg(c, i))
 		} else {
 			wantOK = append(wantOK, i)
 		}
@@ -240,6 +252,22 @@ func checkC20(c *C20Case) *ev.Failure {
 	if len(wantErr) == 0 && o.errs != nil {
 		return ev.Failf("errors-lost", "non-nil error list %v without failures", o.errs)
 	}
+	// what a call returned stays what it is: a later call (here: one whose items all fail) does not reach into it
+	if len(o.errs) > 0 {
+		verifhook.Set(nil)
+		_, errs2 := common.AsyncMapReduce([]int{0, 1, 2, 3, 4, 5}, 0, func(i int) (int, error) { return 0, fmt.Errorf("later call %d", i) }, func(a, v int) int { return a + v })
+		if len(errs2) != 6 {
+			return ev.Failf("errors-lost", "a later call with 6 failing items returned %d errors", len(errs2))
+		}
+		after := []string{}
+		for _, e := range o.errs {
+			after = append(after, e.Message)
+		}
+		sort.Strings(after)
+		if fmt.Sprint(after) != fmt.Sprint(wantErr) {
+			return ev.Failf("errors-aliased", "the error list returned by a call changed when a later call failed: now %v, was %v", after, wantErr)
+		}
+	}
 	// goroutine leak: nothing with AsyncMapReduce on its stack may remain
 	deadline := time.Now().Add(20 * time.Second)
 	for amrGoroutines() > 0 {
@@ -262,6 +290,7 @@ func genC20(t *rapid.T) *C20Case {
 		n = rapid.SampledFrom([]int{40, 63, 64, 65, 100, 130, 200, 257}).Draw(t, "bign")
 	}
 	c := &C20Case{N: n, Err: make([]bool, n), ReduceYield: make([]int, n), MapYield: make([]int, n), HookYield: map[string]int{}}
+	c.SameErr = rapid.IntRange(0, 3).Draw(t, "sameerr") == 0
 	for i := 0; i < n; i++ {
 		c.Err[i] = rapid.IntRange(0, 2).Draw(t, "err") == 0
 		c.ReduceYield[i] = rapid.IntRange(0, 3).Draw(t, "ry")
